@@ -14,6 +14,9 @@ CHECKS = {
  "C03": dict(level="exploration", design="§3 C03",
    text="Soundness oracle: every accepted finalization is re-verified with an independent implementation against the output stored at the named index; a perturbation engine submits, for every tree size/shape/position, each single-field mutation (every bit position of roots and proof elements, arithmetic on sequence/amount, foreign bridge/output, swapped and concatenated addresses, structural proof edits) and random multi-field mixes in three oracle states, with the unperturbed claim as positive control.",
    note=TB+" Hash collisions are not searched for.", technique="runtime soundness oracle + exhaustive single-field perturbation with positive controls"),
+ "C04": dict(level="exploration", design="§3 C04",
+   text="Completeness monitor over two real chains and a faithful executor model that acts only on parsed events: for every tree size up to the bound, both completion rules, mixes of user and refund withdrawals recorded by the real L2 are committed, the period waited out, and every leaf claimed (and re-claimed) on the real L1; an amount lattice around 2^63/2^64/2^255 is pushed through three paths; hostile denoms and address strings.",
+   note=TB+" Premise: positive amount, valid L1 recipient.", technique="runtime completeness monitor (every recorded withdrawal must finalize) with boundary-value lattice"),
  "C05": dict(level="exploration", design="§3 C05",
    text="Timeline monitor with a three-valued finality model in exact nanoseconds: a deterministic lattice drives an output of every accepted period to block times exactly at and one tick around T0+P and probes finalize/delete/query on branches; random timelines add propose/delete/re-propose/role interleavings; creation lattice offers zero, negative, sub-second and huge periods.",
    note=TB+" Inside the 1-second band either answer is accepted.", technique="runtime timeline monitor with boundary-value lattice"),
@@ -23,12 +26,24 @@ CHECKS = {
  "C07": dict(level="fault_enumeration", design="§3 C07",
    text="Outcome classifier (CREDIT / REFUND / illegal) over balances, supply, sequences, events and the auth store, applied to 250+ input classes (recipient x amount x payload) fault-free and with an error and a panic injected at every recorded bank/account-keeper call (five proxy layers), plus byte-mutation and random fuzz of the hook payload and a recording gas meter for the hook-gas bound.",
    note=TB+" Sites outside the 'failing hook or failing mint/transfer' sentence (zero-amount account creation, denom metadata, reclaim/burn) are asserted as legal-outcome-or-atomic-error-with-successful-retry; the per-site table is in the evidence.", technique="fault injection at keeper-interface proxies + outcome classifier + payload fuzz"),
+ "C08": dict(level="exploration", design="§3 C08",
+   text="Two-chain simulation under a seeded single-threaded scheduler (every observed state is a consistent cut); the solvency equation escrow = L2 supply + deposits in flight + unpaid withdrawals is evaluated after every step from bank balances, the two sequence queries, the Claimed query and parsed events; each run ends with a full drain (every claim exactly once, escrow == supply, holdings conserved).",
+   note=TB+" Premise: faithful executor; amounts < 2^62.", technique="runtime conservation monitor over scheduled two-chain interleavings + drain"),
+ "C09": dict(level="exploration", design="§3 C09",
+   text="L2 supply ledger, shared gap-free L2 sequence, write-once denom mapping and exact signer-only burn checked after every message of random L2 histories with credited/refunded/zero/conflicting-base deposits, transfers and withdrawals of bridged, native and unknown denoms below/at/above the balance.",
+   note=TB, technique="runtime reference-model monitor over random histories"),
  "C10": dict(level="exploration", design="§3 C10",
    text="Per-bridge sequence model, event/request/balance triple comparison and token-pair derivation (independent L2 denom) checked after every step of random histories interleaving bridge creation and deposits over ids that partly do not exist yet.",
    note=TB, technique="runtime reference-model monitor over random histories"),
  "C11": dict(level="exploration", design="§3 C11",
    text="Structural invariant of the stored output log (contiguity, strictly increasing L2 blocks, monotone L1 times, final prefix, suffix-only deletion, agreement with a reference list) read through the paginated queries after every step of random propose/delete/re-propose histories with off-by-one indices and L2 blocks.",
    note=TB, technique="runtime structural-invariant monitor at quiescent points"),
+ "C13": dict(level="exploration", design="§3 C13",
+   text="Engine/state agreement monitor: the real CometBFT ValidatorSet accumulates every batch returned by InitGenesis/EndBlocker and is compared after every block with the positive-power validators in state and the recorded last powers; index bijection, capacity, removal-by-end-of-block and per-height history are checked; memoised bounded-exhaustive DFS over add/remove/end-block/max/retention from three genesis sets plus random longer histories.",
+   note=TB+" Engine oracle: cometbft v0.38.12. An engine refusal because every validator was removed ends the history without alarm. Pruning asserted only when retention was never 0.", technique="runtime differential monitor against the real consensus-engine validator set over bounded-exhaustive DFS"),
+ "C14": dict(level="exploration", design="§3 C14",
+   text="Same engine monitor around plan heights: every plan class (new/known operator x new/own/foreign key) x executor lists x max validators x mid-block operation applied to every validator-set state reachable within the depth bound; engine set, state and executors read at h-1, h, h+1; malformed plans must be rejected leaving the plan table untouched. Two classes of plans are recorded as known findings with explicit (class, clause) signatures.",
+   note=TB+" Plan table is process memory, snapshotted/restored around scenarios.", technique="runtime differential monitor against the real consensus-engine validator set over enumerated plan classes x reachable states"),
  "C17": dict(level="exploration", design="§3 C17",
    text="Differential monitor: every exported commitment/identifier function is compared, on lattice and random inputs, with an independent from-scratch Keccak/ADR-028 implementation that is itself pinned to python-hashlib vectors; purity is observed with canary arenas around every argument under four memory layouts of the proof list, at function level and through the real MsgFinalizeTokenWithdrawal handler. Held-on-observed-executions, not a proof.",
    note="Trusts python3 hashlib (vectors generated once, committed), Go's memory model for the canary arenas; hash collisions not searched.",
